@@ -63,6 +63,7 @@ type cls struct {
 	hdr    http.Header // effective stored header fields as served
 	// age / lifetime of the served stored response
 	ageLo, ageHi   int64
+	ageAtRetLo     int64
 	lifeLo, lifeHi int64
 	lifeSrc        string
 	haveAge        bool
@@ -175,7 +176,10 @@ func (r *Run) classify(e *Exch, by map[int]*OResp) *cls {
 			}
 			first := true
 			for _, av := range cands {
-				lo, hi := currentAge(av, e.Header.Get("Date"), r.Sim.Epoch0, hv.TStart, hv.TResp, e.TInv, e.TRet)
+				if l2, _ := currentAge(av, e.Header.Get("Date"), r.Sim.Epoch0, hv.TStart, hv.TResp, e.TRetRaw, e.TRetRaw); first || l2 < c.ageAtRetLo {
+					c.ageAtRetLo = l2
+				}
+				lo, hi := currentAge(av, e.Header.Get("Date"), r.Sim.Epoch0, hv.TStart, hv.TResp, e.TInv, e.TRetRaw)
 				if first {
 					c.ageLo, c.ageHi, first = lo, hi, false
 				} else {
@@ -695,6 +699,13 @@ func judgeFidelity(r *Run, j *Judged, c *cls) {
 		ets, lms := map[string]bool{"": true}, map[string]bool{"": true}
 		note := func(h http.Header) { ets[h.Get("Etag")], lms[h.Get("Last-Modified")] = true, true }
 		note(c.B.Header)
+		// (a conditional request built from the representation B replaced may be answered 304 after B was stored
+		// and then be merged into B: validators of earlier responses of the resource count as well)
+		for _, o := range r.OResps {
+			if o.Res == c.B.Res && o.SeqResp < c.B.SeqResp {
+				note(o.Header)
+			}
+		}
 		for pass := 0; pass < 2; pass++ {
 			chain = chain[:0]
 			for _, o := range r.OResps {
@@ -871,7 +882,9 @@ func judgeStatusAge(r *Run, j *Judged, c *cls) {
 			return
 		}
 		n, err := strconv.ParseInt(av[0], 10, 64)
-		lo := c.ageLo/sec - 1
+		// (the age at the instant the response is handed to the caller: a response served after a slow, failed
+		// validation has aged by the time that took)
+		lo := c.ageAtRetLo/sec - 1
 		hi := c.ageHi
 		if hi != inf {
 			hi = (c.ageHi+sec-1)/sec + 1
@@ -944,9 +957,14 @@ func judgeSIE(r *Run, j *Judged, c *cls, by map[int]*OResp) {
 	if _, ok := parseDate(sh.Get("Date")); !ok {
 		sh.Set("Date", r.httpTime(last.TResp))
 	}
-	aLo, aHi := currentAge(sh.Values("Age"), sh.Get("Date"), r.Sim.Epoch0, last.TStart, last.TResp, e.TInv, e.TRet)
+	// staleness is judged at the instant the failure is known (the end of the failed origin call)
+	tFail := u.TEnd
+	if tFail < e.TInv {
+		tFail = e.TInv
+	}
+	aLo, aHi := currentAge(sh.Values("Age"), sh.Get("Date"), r.Sim.Epoch0, last.TStart, last.TResp, tFail, tFail)
 	if last != B && len(last.Header.Values("Age")) == 0 {
-		lo2, hi2 := currentAge(nil, sh.Get("Date"), r.Sim.Epoch0, last.TStart, last.TResp, e.TInv, e.TRet)
+		lo2, hi2 := currentAge(nil, sh.Get("Date"), r.Sim.Epoch0, last.TStart, last.TResp, tFail, tFail)
 		aLo, aHi = min(aLo, lo2), max(aHi, hi2)
 	}
 	lLo, lHi, _ := lifetime(sh, B.Status)
@@ -1168,8 +1186,15 @@ func judgeSWR(r *Run, j *Judged, c *cls) {
 		return
 	}
 	u := c.bg[0]
-	et, lm := c.hdr.Get("Etag"), c.hdr.Get("Last-Modified")
-	if (et != "" && u.Req.Header.Get("If-None-Match") != et) || (lm != "" && u.Req.Header.Get("If-Modified-Since") != lm) {
+	// the validators as stored (a qualified no-cache may have stripped them from what the caller was given)
+	sh, _ := r.effectiveStored(c.B, e.SeqInv)
+	et, lm := sh.Get("Etag"), sh.Get("Last-Modified")
+	if r.clientConditionalSince(c.B, e.SeqInv) {
+		et, lm = u.Req.Header.Get("If-None-Match"), u.Req.Header.Get("If-Modified-Since")
+	}
+	// (which exact values are in the store can depend on races between concurrent background validations;
+	// that validators the origin really sent are used is C02's validation-request rule)
+	if (et != "" || lm != "") && u.Req.Header.Get("If-None-Match") == "" && u.Req.Header.Get("If-Modified-Since") == "" {
 		j.fail("C20", "revalidation-count", e, "unconditional", "background revalidation is not conditional on the stored validators: stored ETag=%q Last-Modified=%q, sent If-None-Match=%q If-Modified-Since=%q", et, lm, u.Req.Header.Get("If-None-Match"), u.Req.Header.Get("If-Modified-Since"))
 	}
 	// timeout: when the origin does not answer, the call is cancelled at spawn+T
